@@ -181,6 +181,14 @@ def gen_program(exact, length):
             vars_[v] = vars_[x]
             ops.append("(OAlias %d %d)" % (v, x))
             txt.append("v%d = v%d" % (v, x))
+        # an operation that returns a new formula returns a NEW object (otherwise a later += on the
+        # result changes the operand)
+        if k in ("add", "rmul", "fromf", "formula"):
+            newv = max(vars_)
+            for v0, (oid, st, de, na) in before.items():
+                if id(vars_[newv]) == oid:
+                    fail("C02:result-aliases-operand", "%s returns the operand object itself (v%d is v%d), so a later += on "
+                         "the result changes the operand" % (txt[-1], newv, v0), program="; ".join(txt))
         # operands unchanged: every pre-existing object other than the target of += is as before
         for v0, (oid, st, de, na) in before.items():
             f0 = vars_[v0]
